@@ -641,8 +641,11 @@ static void WikiSort(T *restrict array, const size_t size) {
 					}
 				}
 				
-				if (compare(array[A.end], array[A.end - 1])) {
-					/* these two ranges weren't already in order, so we'll need to merge them! */
+				if (compare(array[A.end], array[A.end - 1]) &&
+				    !compare(array[B.end - 1], array[A.start])) {
+					/* these two ranges weren't already in order, nor in reverse order (which
+					 * is left to the rotation below and which the blocks couldn't cope with
+					 * when A is all one value), so we'll need to merge them! */
 					Range blockA, firstA, lastA, lastB, blockB;
 					size_t minA, indexA, findA;
 					__typeof__(array[0]) min_value;
